@@ -41,6 +41,8 @@ def plan(tier, seed):
     units = []
     for i in range(48 if tier == 'quick' else 480):
         units.append({'kind': 'values', 'seed': seed * 3571 + i, 'n': 220 if tier == 'quick' else 600})
+    for i in range(4 if tier == 'quick' else 32):
+        units.append({'kind': 'xproc', 'seed': seed * 3571 + 90000 + i, 'n': 40 if tier == 'quick' else 150})
     for i in range(16 if tier == 'quick' else 160):
         units.append({'kind': 'history', 'seed': seed * 3571 + 50000 + i, 'n': 8 if tier == 'quick' else 30})
     return units
@@ -198,6 +200,45 @@ def run_unit(u):
         with contextlib.redirect_stdout(io.StringIO()):
             return sv.compile(a[0], a[1], a[3], custom=a[2])
 
+    if u['kind'] == 'xproc':
+        # pickles written here are read by a fresh interpreter with another string-hash seed
+        import os
+        import subprocess
+        import tempfile
+        from vlib import env
+        items = []
+        for _ in range(u['n']):
+            a = args(rng)
+            st, c = monitors.guarded_call(comp, a)
+            if st != 'ok':
+                continue
+            items.append(((a[0], None if a[1] is None else dict(a[1]), None if a[2] is None else dict(a[2]), a[3] & ~sv.DEBUG),
+                          pickle.dumps(sv.compile(a[0], a[1], a[3] & ~sv.DEBUG, custom=a[2]), rng.choice([2, 4, pickle.HIGHEST_PROTOCOL]))))
+        d = tempfile.mkdtemp(prefix='c15x.')
+        try:
+            pin, pout = os.path.join(d, 'in.pickle'), os.path.join(d, 'out.json')
+            pickle.dump({'items': items, 'markup': C05.HTML}, open(pin, 'wb'))
+            e = {k: v for k, v in os.environ.items() if k != 'PYTHONHASHSEED'}
+            e['PYTHONHASHSEED'] = str(1 + u['seed'] % 1000)
+            e['PYTHONPATH'] = env.REPO
+            r = subprocess.run([env.PYTHON, '-B', os.path.join(env.VERIF, 'vlib', 'xproc_child.py'), pin, pout], capture_output=True, text=True,
+                               timeout=600, env=e, cwd=d)
+            import json as _json
+            out = _json.load(open(pout)) if os.path.exists(pout) else None
+        finally:
+            for f in os.listdir(d):
+                os.unlink(os.path.join(d, f))
+            os.rmdir(d)
+        if out is None:
+            res['harness_error'] = 'cross-process child failed: %s' % r.stderr[-500:]
+        else:
+            res['evals'] += out['n']
+            bump('cross_process_unpickled', out['n'])
+            for b in out['bad']:
+                viol('cross-process pickle: ' + b, 'xproc', 'xproc:' + b.split(': ', 1)[-1][:40])
+        res['samples'].append({'cross_process_objects': len(items)})
+        res['sigs'] = [sig('xproc', i[0]) for i in items]
+        return res
     if u['kind'] == 'values':
         for _ in range(u['n']):
             a = args(rng)
@@ -393,6 +434,8 @@ def inconclusive(cn, tier):
         out.append('too few compiled objects examined: %d' % cn.get('objects', 0))
     if cn.get('nodes_walked', 0) < 10000 or cn.get('copies', 0) < 5000 or cn.get('alias_checks', 0) < 500:
         out.append('walker/copy/alias monitors under-exercised: %r' % {k: cn.get(k) for k in ('nodes_walked', 'copies', 'alias_checks')})
+    if not cn.get('cross_process_unpickled'):
+        out.append('cross-process pickle workload missing')
     if cn.get('histories', 0) < 50 or cn.get('nontrivial', 0) < 1000:
         out.append('too few histories beyond the cache bound')
     return out
